@@ -258,6 +258,23 @@ def atom_args(a):
     return out
 
 
+def contains_atom(v, pred):
+    """does value v (Poly / nested keys) contain an atom satisfying pred (recursively through arguments)?"""
+    if isinstance(v, Poly):
+        for mono in v.t:
+            for a, _ in mono:
+                if pred(a):
+                    return True
+                if a[0] == "f" and any(contains_atom(k, pred) for k in a[2:]):
+                    return True
+        return False
+    if isinstance(v, Rat):
+        return contains_atom(v.n, pred) or contains_atom(v.d, pred)
+    if isinstance(v, (tuple, list)):
+        return any(contains_atom(x, pred) for x in v)
+    return False
+
+
 def split_signed(v):
     """v == sum of +-1 * atom terms -> (plus atoms, minus atoms) or None"""
     if not isinstance(v, Poly):
@@ -268,6 +285,92 @@ def split_signed(v):
             return None
         (plus if c == 1 else minus).append(mono[0][0])
     return plus, minus
+
+
+def decode_fmt_template(bs):
+    """core::fmt template bytes -> (string with {} / {:opts} placeholders, [arg indices])"""
+    out = ""
+    idxs = []
+    i = 0
+    nxt = 0
+    while i < len(bs):
+        b = bs[i]
+        i += 1
+        if b == 0:
+            break
+        if b < 0x80:
+            out += bytes(bs[i:i + b]).decode("utf-8", "replace")
+            i += b
+        elif b == 0x80:
+            ln = bs[i] | (bs[i + 1] << 8)
+            i += 2
+            out += bytes(bs[i:i + ln]).decode("utf-8", "replace")
+            i += ln
+        else:
+            opts = []
+            if b & 1:
+                opts.append("f%x" % int.from_bytes(bytes(bs[i:i + 4]), "little"))
+                i += 4
+            if b & 2:
+                opts.append("w%d" % (bs[i] | (bs[i + 1] << 8)))
+                i += 2
+            if b & 4:
+                opts.append("p%d" % (bs[i] | (bs[i + 1] << 8)))
+                i += 2
+            if b & 8:
+                ai = bs[i] | (bs[i + 1] << 8)
+                i += 2
+            else:
+                ai = nxt
+            nxt = ai + 1
+            idxs.append(ai)
+            out += "{}" if not opts else "{:%s}" % ",".join(opts)
+    return out, idxs
+
+
+def parse_fmt_block(n):
+    """HIR of a `format_args!` lowering -> (template, [argument expression nodes]) or None"""
+    if not n.get("ty", "").startswith("std::fmt::Arguments"):
+        return None
+    calls = [c for c in walk(n) if c.get("k") == "call" and (callee(c) or "").startswith("std::fmt::Arguments::<'a>::")]
+    if len(calls) != 1:
+        return None
+    c = calls[0]
+    name = callee(c).rsplit("::", 1)[-1]
+    if name in ("from_str", "new_const"):
+        a = strip(c["args"][0])
+        if a.get("k") == "lit":
+            return str(a["v"]), []
+        return None
+    if name == "new":
+        a = strip(c["args"][0])
+        if a.get("k") != "lit" or "ByteStr" not in str(a["v"]):
+            return None
+        import re as _r
+        bs = [int(x) for x in _r.findall(r"\d+", str(a["v"]).split("]")[0])]
+        tmpl, idxs = decode_fmt_template(bs)
+        # the user arguments: the first `let args = (&a, &b, ..)` tuple
+        tup = None
+        for st in n.get("stmts", []):
+            if st.get("k") == "let" and st.get("init", {}).get("k") == "tup":
+                tup = st["init"]["es"]
+                break
+        # argument array: Argument::new_xxx(args.N)
+        arr = None
+        for st in n.get("stmts", []):
+            if st.get("k") == "let" and st.get("init", {}).get("k") == "array":
+                arr = st["init"]["es"]
+        if tup is None or arr is None:
+            return None
+        argn = []
+        for ai in idxs:
+            el = arr[ai]
+            f = [x for x in walk(el) if x.get("k") == "field"]
+            if not f:
+                return None
+            argn.append(tup[int(f[0]["f"])])
+        return tmpl, argn
+    return None
 
 
 class SymEval:
@@ -332,6 +435,10 @@ class SymEval:
     # ---- expressions -----------------------------------------------------
     def eval(self, n, env):
         k = n.get("k")
+        if k == "block" and n.get("ty", "").startswith("std::fmt::Arguments"):
+            pf = parse_fmt_block(n)
+            if pf is not None:
+                return ("fmt", pf[0], [self.eval(a, env) for a in pf[1]])
         m = getattr(self, "e_" + k, None)
         if m is None:
             raise Unsupported("expression kind %s at %s" % (k, n.get("sp")))
@@ -345,9 +452,9 @@ class SymEval:
             return num(Fraction(n["v"].replace("_", "")))
         if lt == "bool":
             return ("bool", n["v"])
-        if lt == "str":
+        if lt in ("str", "char"):
             return ("str", n["v"])
-        raise Unsupported("literal " + lt)
+        return ("str", repr(n.get("v")))
 
     def e_path(self, n, env):
         if n.get("res") == "local":
@@ -375,7 +482,27 @@ class SymEval:
         raise Unsupported("path res %s" % n.get("res"))
 
     def e_ref(self, n, env):
-        return self.eval(n["e"], env)
+        v = self.eval(n["e"], env)
+        if n.get("mut"):
+            self.mutated(n["e"], env)
+        return v
+
+    def mutated(self, place, env):
+        """the local at the root of `place` is borrowed mutably: its contents are unknown from here on
+        (its shape-level facts survive inside the `mutated(..)` wrapper)."""
+        from .facts import access_path
+        ap = access_path(place)
+        if not ap:
+            return
+        name = ap[0]
+        if name in env:
+            old = env[name]
+            a = single_atom(old) if isinstance(old, Poly) else None
+            if a and atom_fn(a) == "mutated":
+                return
+            if isinstance(old, tuple) and old and old[0] in ("closure", "iterdesc"):
+                return
+            env[name] = app("mutated", old)
 
     def e_cast(self, n, env):
         v = self.eval(n["e"], env)
@@ -525,6 +652,8 @@ class SymEval:
         e = self.eval(n["e"], env) if "e" in n else ("tuple", [])
         if isinstance(c, tuple) and c and c[0] == "bool":
             return t if c[1] else e
+        if repr(vkey(t)) == repr(vkey(e)):
+            return t
         return app("ite", c, t, e)
 
     def e_match(self, n, env):
@@ -567,16 +696,23 @@ class SymEval:
             return app(name, *args)
         body = self.inline(inst or path) or self.inline(path)
         if body is not None and self.depth < self.max_depth and body.hir:
-            e2 = {}
-            if len(body.params) != len(args):
-                raise Unsupported("arity mismatch inlining " + path)
-            for p, a in zip(body.params, args):
-                self.bind(p, a, e2)
-            self.depth += 1
-            try:
-                return self.eval(body.value, e2)
-            finally:
-                self.depth -= 1
+            return self.inline_body(body, args)
+        return self.call_opaque(path, args)
+
+    def inline_body(self, body, args):
+        e2 = {}
+        if len(body.params) != len(args):
+            raise Unsupported("arity mismatch inlining " + body.path)
+        for p, a in zip(body.params, args):
+            self.bind(p, a, e2)
+        self.depth += 1
+        try:
+            return self.eval(body.value, e2)
+        finally:
+            self.depth -= 1
+
+    def call_opaque(self, path, args):
+        base = path.rsplit("::", 1)[-1] if path else "?"
         if base in ("Ok", "Some", "Err") and len(args) == 1 and path.startswith("std::prelude"):
             return ("ctor", base, args)
         return app(path, *args)
@@ -588,6 +724,8 @@ class SymEval:
             dk = f.get("dk", "")
             if dk.startswith("Ctor"):
                 return ("ctor", f["def"].rsplit("::", 1)[-1], args)
+            if f["def"].endswith("fmt::Arguments::<'a>::from_str") and args and isinstance(args[0], tuple) and args[0][0] == "str":
+                return ("fmt", args[0][1], [])
             return self.call_fn(f["def"], f.get("inst"), args, n, env)
         fv = self.eval(f, env)
         return self.apply(fv, args)
@@ -606,7 +744,10 @@ class SymEval:
         recv = self.eval(n["recv"], env)
         args = [recv] + [self.eval(a, env) for a in n["args"]]
         path = n.get("def") or ("?::" + n["m"])
-        return self.call_fn(path, n.get("inst"), args, n, env)
+        r = self.call_fn(path, n.get("inst"), args, n, env)
+        if any("Ref(Mut" in a for a in n["recv"].get("adj", [])) or "&mut" in n.get("recv_adj", "")[:5]:
+            self.mutated(n["recv"], env)
+        return r
 
     def e_ret(self, n, env):
         raise Unsupported("return at %s" % n.get("sp"))
